@@ -6,6 +6,7 @@ cd /verif
 git -C /repo apply /verif/seeded/$id/patch.diff || exit 2
 out=seeded/$id/check_output.txt; : > $out
 PYTHONPATH=/repo /venv/bin/python seeded/$id/demo.py >/dev/null 2>&1; echo "demo.py exit with change applied: $?" >> $out
+export VERIF_EVIDENCE_DIR=/verif/scratch/seeded_evidence
 for p in "$@"; do echo "--- ./vcheck $p --tier quick" >> $out; ./vcheck $p --tier quick 2>&1 | grep -E "^\[|VIOLATION|UNDECIDED|KNOWN|FAULT" >> $out; echo "exit=${PIPESTATUS[0]}" >> $out; done
 git -C /repo checkout -- .
 PYTHONPATH=/repo /venv/bin/python seeded/$id/demo.py >/dev/null 2>&1; echo "demo.py exit on the unchanged tree: $?" >> $out
